@@ -24,6 +24,7 @@ pub enum Profile {
     Monoburst,
     Dangling,
     Overfill,
+    Stamp,
 }
 
 pub const PROFILES: [Profile; 8] = [
@@ -58,6 +59,7 @@ impl Profile {
             "monoburst" => Self::Monoburst,
             "dangling" => Self::Dangling,
             "overfill" => Self::Overfill,
+            "stamp" => Self::Stamp,
             _ => return None,
         })
     }
@@ -81,6 +83,7 @@ impl Profile {
             Self::Monoburst => "monoburst",
             Self::Dangling => "dangling",
             Self::Overfill => "overfill",
+            Self::Stamp => "stamp",
         }
     }
 }
@@ -925,7 +928,7 @@ pub fn gen_case(seed: u64, kind: &'static str, profile: Profile, len: usize, whi
                 Profile::Churn => (38, 14, 4, 2, 24, 3, 3, 6, 6),
                 Profile::Growth => (50, 18, 4, 3, 6, 1, 2, 8, 8),
                 Profile::Scan => (40, 45, 2, 1, 3, 0, 0, 6, 3),
-                Profile::Big | Profile::Batch | Profile::Oversize | Profile::Regrow | Profile::Growexp | Profile::Expnext | Profile::Lateread | Profile::Aging | Profile::Monoburst | Profile::Dangling | Profile::Overfill => (55, 20, 2, 1, 8, 1, 1, 2, 10),
+                Profile::Big | Profile::Batch | Profile::Oversize | Profile::Regrow | Profile::Growexp | Profile::Expnext | Profile::Lateread | Profile::Aging | Profile::Monoburst | Profile::Dangling | Profile::Overfill | Profile::Stamp => (55, 20, 2, 1, 8, 1, 1, 2, 10),
             };
         let mut acc = 0;
         let mut pick = |p: u64| { acc += p; r < acc };
@@ -1106,7 +1109,7 @@ pub fn gen_inject(seed: u64, profile: Profile, len: usize) -> Vec<String> {
     // a third of the cases end with a refill (C03): weight = value, no expiry, capacity 1..8
     let refill = {
         let mut r2 = Rng::new(splitmix(seed ^ 0x0c03_0c03));
-        if r2.chance(1, 3) {
+        if profile != Profile::Stamp && r2.chance(1, 3) {
             cfg.weigher = WeigherKind::Val;
             cfg.ttl = None;
             cfg.tti = None;
@@ -1116,17 +1119,62 @@ pub fn gen_inject(seed: u64, profile: Profile, len: usize) -> Vec<String> {
             false
         }
     };
+    // a quarter of the other cases: time-to-live only, for the motif "an update whose clock reading
+    // is older than its map write" (model T): see below
+    let stamp = {
+        let mut r4 = Rng::new(splitmix(seed ^ 0x0c05_0c05));
+        if !refill && profile == Profile::Stamp {
+            cfg.ttl = Some(r4.pick(&[SEC, 3 * SEC]));
+            cfg.tti = None;
+            if matches!(cfg.cap, Some(c) if c < 8) {
+                cfg.cap = None;
+            }
+            true
+        } else {
+            false
+        }
+    };
     let nkeys = 1 + rng.below(4);
     let irate = rng.pick(&[1u64, 2, 3, 5]);
     let mut line = cfg.line(seed, profile);
     line.push_str(&format!(" irate={} ikeys={}", irate, nkeys));
+    if stamp {
+        line.push_str(" istamp=1");
+    }
     let mut out = vec![line];
+    if stamp {
+        // Scripted whole-call updates of a resident key: at the update's clock reading another
+        // logical thread may advance the clock (by 1 us or 600 ms) and update the key itself (the
+        // harness injects that at the clock-read hook and notes the scripted call's reading);
+        // then the clock moves to 300 ms before the deadline counted from "now": past the
+        // deadline of the scripted value if 600 ms were injected, before it otherwise.
+        let mut r5 = Rng::new(splitmix(seed ^ 0x7c05_7c05));
+        let ttl = cfg.ttl.unwrap_or(SEC);
+        for _ in 0..(2 + r5.below(3)) {
+            let k = r5.below(nkeys);
+            out.push(format!("ins {} {}", k, 1 + r5.below(4)));
+            if r5.chance(1, 2) {
+                out.push("sync".into());
+            }
+            out.push(format!("adv {}", r5.pick(&[1000u64, 100_000_000])));
+            out.push(format!("ins {} {}", k, 5 + r5.below(4)));
+            out.push(format!("adv {}", ttl - 300_000_000));
+            out.push(format!("get {}", k));
+            out.push(format!("has {}", k));
+            out.push("iter".into());
+            if r5.chance(1, 2) {
+                out.push("sync".into());
+            }
+            out.push("snap".into());
+            out.push(format!("adv {}", 2 * ttl));
+        }
+    }
     let nthreads = 2 + rng.below(2);
     let mut holding = vec![false; nthreads as usize];
     if rng.chance(1, 2) {
         out.push("adv 600000000".into());
     }
-    if rng.chance(1, 3) {
+    if rng.chance(1, 3) && profile != Profile::Stamp {
         // motif: an admission with two victims. Capacity 2, weight = value: keys 0 and 1 (weight 1
         // each) are resident, key 2 (weight 2) is made popular and inserted; the maintenance run
         // that admits it has callback points between the removals of its victims.
